@@ -2416,6 +2416,13 @@ func (c *Checker) checkRecordPair(node ast.ExpressionNode) (n ast.ExpressionNode
 		return p, keyType, valueType
 	case *ast.DoubleSplatExpressionNode:
 		return c.checkRecordDoubleSplatExpression(p)
+	case *ast.PublicConstantNode, *ast.PrivateConstantNode:
+		// the parser accepts a lone constant as a map element, but only local variables can be used as a shorthand
+		c.addFailure(
+			"expected a key-value pair, only local variables can be used as shorthand map elements",
+			node.Location(),
+		)
+		return node, types.Untyped{}, types.Untyped{}
 	default:
 		panic(fmt.Sprintf("invalid map element node: %#v", node))
 	}
